@@ -86,11 +86,13 @@ func (set *Set) Cardinality() int {
 func (set *Set) GetRandom(count int) []string {
 	keys := set.GetAll()
 
-	if count == 0 {
+	if count == 0 || len(keys) == 0 {
 		return []string{}
 	}
 
-	if internal.AbsInt(count) >= set.Cardinality() {
+	// A positive count asks for distinct members: there are at most Cardinality() of them.
+	// A negative count asks for exactly |count| members, repeats allowed, however small the set is.
+	if count > 0 && count >= set.Cardinality() {
 		return keys
 	}
 
